@@ -135,6 +135,8 @@ fn txn_alphabet() -> Vec<&'static str> {
         // three holdings whose values in Z have 29 significant digits: decimal addition rounds when the running sum
         // exceeds 96 bits, so (a + b) - b and a + (b - b) differ in the last digit - a conversion that sums in map
         // order prints different figures per run
+        // account names that differ only by case: any ordering key coarser than the name itself leaves them tied
+        "2024/01/19 l\n  Assets:Bank  1 X\n  Assets:bank  2 X\n  ASSETS:BANK  3 X\n  assets:Bank  -6 X\n\n",
         "2024/01/18 k\n  H  1 P @ 5.1111111111111111111111111111 Z\n  H  1 Q @ 4.0000000000000000000000000004 Z\n  H  -1 R @ 4.0000000000000000000000000004 Z\n  B\n\n",
     ]
 }
